@@ -26,6 +26,7 @@ type Engine struct {
 	FuncKeys map[*ssa.Function]string
 	Notes    []string
 	SpecLib  string
+	ModPkgs  []*packages.Package
 }
 
 var goEnv = []string{"GOFLAGS=-mod=mod", "GOPROXY=off", "GOSUMDB=off", "GOTOOLCHAIN=local"}
@@ -77,7 +78,16 @@ func Load(repoDir string, patterns []string, overlay map[string][]byte, specLib 
 			}
 		}
 	}
-	for _, p := range pkgs {
+	// every package of the module that was loaded (roots and their module-internal dependencies)
+	var modPkgs []*packages.Package
+	packages.Visit(pkgs, nil, func(p *packages.Package) {
+		if p.Module != nil && p.Module.Main || strings.HasPrefix(p.PkgPath, "github.com/vimeo/dials") {
+			modPkgs = append(modPkgs, p)
+		}
+	})
+	sort.Slice(modPkgs, func(i, j int) bool { return modPkgs[i].PkgPath < modPkgs[j].PkgPath })
+	e.ModPkgs = modPkgs
+	for _, p := range modPkgs {
 		for _, f := range p.GoFiles {
 			if !strings.HasSuffix(f, "_contracts_verif.go") {
 				continue
@@ -114,11 +124,12 @@ func Load(repoDir string, patterns []string, overlay map[string][]byte, specLib 
 			add(a)
 		}
 	}
-	for _, p := range pkgs {
-		sp := e.SSAPkgs[p.PkgPath]
+	for _, p := range modPkgs {
+		sp := prog.Package(p.Types)
 		if sp == nil {
 			continue
 		}
+		e.SSAPkgs[p.PkgPath] = sp
 		scope := p.Types.Scope()
 		for _, name := range scope.Names() {
 			switch o := scope.Lookup(name).(type) {
@@ -131,6 +142,20 @@ func Load(repoDir string, patterns []string, overlay map[string][]byte, specLib 
 				}
 				for i := 0; i < n.NumMethods(); i++ {
 					add(prog.FuncValue(n.Method(i)))
+				}
+				// promoted methods (embedding): synthetic wrappers are code too
+				if n.TypeParams().Len() == 0 {
+					for _, recv := range []types.Type{n, types.NewPointer(n)} {
+						ms := prog.MethodSets.MethodSet(recv)
+						for j := 0; j < ms.Len(); j++ {
+							sel := ms.At(j)
+							if len(sel.Index()) > 1 {
+								if fn := prog.MethodValue(sel); fn != nil {
+									add(fn)
+								}
+							}
+						}
+					}
 				}
 			}
 		}
